@@ -112,11 +112,11 @@ var (
 	tDur    = reflect.TypeOf(c17Dur(0))
 	tSq     = reflect.TypeOf(c17Sq{})
 	tCirc   = reflect.TypeOf(c17Circ{})
-	tInt    = reflect.TypeOf(0)
-	tBool   = reflect.TypeOf(true)
+	t17Int    = reflect.TypeOf(0)
+	t17Bool   = reflect.TypeOf(true)
 	tStr    = reflect.TypeOf("")
 	tVecs   = reflect.TypeOf([]c17Vec{})
-	tAny    = reflect.TypeOf(new(interface{})).Elem()
+	t17Any    = reflect.TypeOf(new(interface{})).Elem()
 	tEnvPtr = reflect.TypeOf(c17Env{})
 )
 
@@ -147,16 +147,16 @@ type texp struct {
 
 func builtinResult(op string, l, r reflect.Type) reflect.Type {
 	switch {
-	case l == tInt && r == tInt && (op == "+" || op == "-" || op == "*"):
-		return tInt
-	case l == tInt && r == tInt && op == "==":
-		return tBool
+	case l == t17Int && r == t17Int && (op == "+" || op == "-" || op == "*"):
+		return t17Int
+	case l == t17Int && r == t17Int && op == "==":
+		return t17Bool
 	case l == tStr && r == tStr && op == "+":
 		return tStr
 	case l == tStr && r == tStr && op == "==":
-		return tBool
+		return t17Bool
 	case l == tVec && r == tVec && op == "==":
-		return tBool
+		return t17Bool
 	}
 	return nil
 }
@@ -177,19 +177,19 @@ func (g *c17gen) atom(t reflect.Type) texp {
 		return pick("S1")
 	case tCirc:
 		return pick("C1")
-	case tInt:
+	case t17Int:
 		return pick("I", "J", "1", "2", "7")
 	case tStr:
 		return pick("Str", "Str2", "'s'")
 	case tVecs:
 		return pick("Vs", "Ws")
-	case tBool:
+	case t17Bool:
 		return pick("true", "I > 2")
 	}
 	return texp{"nil", "nil", nil, 0}
 }
 
-var c17types = []reflect.Type{tVec, tVec, tVec, tDur, tSq, tCirc, tInt, tInt, tStr, tVecs, tVecs}
+var c17types = []reflect.Type{tVec, tVec, tVec, tDur, tSq, tCirc, t17Int, t17Int, tStr, tVecs, tVecs}
 
 // gen produces a typed expression in both forms; want == nil means any type.
 func (g *c17gen) gen(depth int, want reflect.Type) texp {
@@ -227,16 +227,16 @@ func (g *c17gen) gen(depth int, want reflect.Type) texp {
 			}
 			return e
 		case 4: // projections to int
-			if want == tInt {
+			if want == t17Int {
 				v := g.gen(depth-1, tVec)
 				forms := []string{"%s.X", "%s.Len()", "Norm(%s)"}
 				f := forms[rng.Intn(len(forms))]
-				return texp{fmt.Sprintf(f, v.op), fmt.Sprintf(f, v.call), tInt, v.nops}
+				return texp{fmt.Sprintf(f, v.op), fmt.Sprintf(f, v.call), t17Int, v.nops}
 			}
 		case 5: // slices of []Vec: the sliced operand, from and to are all positions
 			if want == tVecs {
 				v := g.gen(depth-1, tVecs)
-				i := g.gen(depth-1, tInt)
+				i := g.gen(depth-1, t17Int)
 				forms := []string{"%s[0:1]", "%s[1:]", "%s[:%s - %s]", "%s[%s - %s:]", "filter(%s, {#.X > 0})"}
 				f := forms[rng.Intn(len(forms))]
 				if strings.Count(f, "%s") == 3 {
@@ -250,13 +250,13 @@ func (g *c17gen) gen(depth int, want reflect.Type) texp {
 				return texp{v.op + "[0]", v.call + "[0]", tVec, v.nops}
 			}
 		case 7: // conditional with equal branch types
-			cnd := g.gen(depth-1, tBool)
+			cnd := g.gen(depth-1, t17Bool)
 			a, b := g.gen(depth-1, want), g.gen(depth-1, want)
 			return texp{"(" + cnd.op + " ? " + a.op + " : " + b.op + ")", "(" + cnd.call + " ? " + a.call + " : " + b.call + ")", want, cnd.nops + a.nops + b.nops}
 		case 8:
-			if want == tBool {
-				l, r := g.gen(depth-1, tInt), g.gen(depth-1, tInt)
-				return texp{"(" + l.op + " < " + r.op + ")", "(" + l.call + " < " + r.call + ")", tBool, l.nops + r.nops}
+			if want == t17Bool {
+				l, r := g.gen(depth-1, t17Int), g.gen(depth-1, t17Int)
+				return texp{"(" + l.op + " < " + r.op + ")", "(" + l.call + " < " + r.call + ")", t17Bool, l.nops + r.nops}
 			}
 		}
 	}
